@@ -84,6 +84,17 @@ Theorem names_of_callers_ok : forall c h,
 Proof. exact wf_history_ok. Qed.
 Print Assumptions names_of_callers_ok.
 
+(* The first two statements with the hypothesis on names discharged: for every absolute origin and
+   every history whose operation names are Name objects. *)
+Theorem incremental_eq_spec_all_callers : forall c h,
+    is_absolute (c_origin c) = true -> names_wf h ->
+    let z := exec c h in
+    (forall n nd, In (n, nd) (z_nodes z) -> nflags nd = flags_of c (z_nodes z) (n, nd)) /\
+    map ekey (map fst (z_delegs z)) = map ekey (delegations_of c (z_nodes z)) /\
+    increasing (map fst (z_nodes z)).
+Proof. exact incremental_eq_spec_names. Qed.
+Print Assumptions incremental_eq_spec_all_callers.
+
 (* ---- non-vacuity: a relativized zone with nested cuts b > a.b > q.z.a.b, loaded inner cut first,
         then the outer cut is removed in a second transaction ---- *)
 Definition ex_cfg := mkCfg true [[101;120]; []].   (* origin "ex." *)
